@@ -42,7 +42,7 @@ macro "inv_open" h:ident : tactic =>
   `(tactic| (
     have hF := SInvL.facts $h
     obtain ⟨fmW, fdGM, fdGQ, fdMQ, fws, fls, fhm, fms, fqh⟩ := hF
-    obtain ⟨hch, hnd, hgd, hqne, hbG, hbM, hbQ, hgs, hpub, hpriv, hown, htw, hinw, hlow, hdh, hmid, hdck, hlk, hpcf⟩ := $h))
+    obtain ⟨hch, hnd, hgd, hqne, hbG, hbM, hbQ, hgs, hpub, hpriv, hown, htw, hinw, hlow, hdh, hdhw, hmid, hdck, hlk, hpcf⟩ := $h))
 
 set_option hygiene false in
 macro "auto_step" : tactic =>
@@ -60,6 +60,23 @@ theorem link_src {pc : PC} {a : Nat} {v : MP} (h : linkOf pc = some (a, v)) :
   all_goals (rename_i p; obtain ⟨p1, p2⟩ := p; cases p1 <;> cases p2 <;> simp_all [linkOf, wnodes])
 
 set_option maxHeartbeats 1000000 in
+/-- An observed link of a published node is marked (and so immutable). -/
+theorem link_marked {pc : PC} {a : Nat} {v : MP} (h : linkOf pc = some (a, v)) (hf : pcFact pc) :
+    enqNode pc = some a ∨ (v.2 = true ∧ v.1 ≠ none) := by
+  cases pc with
+  | enqCas n a' b => simp_all [linkOf, enqNode]
+  | bkCas n a' p => simp_all [linkOf, enqNode]
+  | skHead h' a' it p hops =>
+    simp only [linkOf, Option.some.injEq, Prod.mk.injEq] at h
+    obtain ⟨rfl, rfl⟩ := h
+    right; simpa [pcFact] using hf
+  | dChk h' a' p =>
+    obtain ⟨p1, p2⟩ := p
+    cases p1 <;> cases p2 <;> simp [linkOf] at h
+    obtain ⟨rfl, rfl⟩ := h
+    right; simp
+  | _ => simp [linkOf] at h
+
 theorem sinvl_step_enqLd1 {s s' : St} {t : Tid} {ev : Ev} {G M Q : List Nat} {n : Nat}
     (h : SInvL s G M Q) (hpc : s.pc t = .enqLd1 n) (hs : step s t = some (s', ev)) :
     ∃ G' M' Q', SInvL s' G' M' Q' ∧ StepEff s t s' Q Q' := by
@@ -220,7 +237,7 @@ theorem sinvl_step_dNx1 {s s' : St} {t : Tid} {ev : Ev} {G M Q : List Nat} {h' a
   inv_open h
   auto_step
 
-set_option maxHeartbeats 1000000 in
+set_option maxHeartbeats 4000000 in
 theorem sinvl_step_dChk {s s' : St} {t : Tid} {ev : Ev} {G M Q : List Nat} {h' a : Nat} {p : MP}
     (h : SInvL s G M Q) (hpc : s.pc t = .dChk h' a p) (hs : step s t = some (s', ev)) :
     ∃ G' M' Q', SInvL s' G' M' Q' ∧ StepEff s t s' Q Q' := by
@@ -263,11 +280,31 @@ theorem sinvl_step_hpCas {s s' : St} {t : Tid} {ev : Ev} {G M Q : List Nat} {h' 
   inv_open h
   auto_step
 
-set_option maxHeartbeats 1000000 in
+set_option maxHeartbeats 4000000 in
 theorem sinvl_step_skHead {s s' : St} {t : Tid} {ev : Ev} {G M Q : List Nat} {h' a it : Nat} {p : MP} {hops : Nat}
     (h : SInvL s G M Q) (hpc : s.pc t = .skHead h' a it p hops) (hs : step s t = some (s', ev)) :
     ∃ G' M' Q', SInvL s' G' M' Q' ∧ StepEff s t s' Q Q' := by
   inv_open h
+  have hnx : s.nptr it = p.1 ∧ s.nbit it = p.2 := by
+    have := hlk t it p (by simp [hpc, linkOf]); simpa [St.next, Prod.ext_iff] using this
+  have hp2 : p.2 = true := by have := hpcf t; simp [hpc, pcFact] at this; exact this.1
+  have hitW := hinw t it (by simp [hpc, wnodes])
+  have hgm : ∀ x, p.1 = some x → it ∈ G ∨ it ∈ M := by
+    intro x hx
+    rcases (fmW it).mp hitW with h1 | h1 | h1
+    · exact Or.inl h1
+    · exact Or.inr h1
+    · have := hbQ it h1 (by rw [hnx.1, hx]; simp); rw [hnx.2, hp2] at this; simp at this
+  have hlowx : ∀ x, p.1 = some x → Low G M Q x := fun x hx => fls it x (hgm x hx) (by rw [hnx.1, hx])
+  have hxW : ∀ x, p.1 = some x → x ∈ G ++ (M ++ Q) := fun x hx => fws it x hitW (by rw [hnx.1, hx])
+  have hmidx : ∀ x, p.1 = some x → s.head = h' → Mid M Q x := by
+    intro x hx hh
+    have hmi := hmid t h' it (by simp [hpc, midOf]) hh
+    have hiM : it ∈ M := by
+      rcases hmi with h1 | h1
+      · exact h1
+      · have := hbQ it (fqh it h1) (by rw [hnx.1, hx]; simp); rw [hnx.2, hp2] at this; simp at this
+    exact fms it x hiM (by rw [hnx.1, hx])
   obtain ⟨p1, p2⟩ := p
   cases p1 <;> cases p2 <;> auto_step
 
@@ -278,7 +315,7 @@ theorem sinvl_step_skP1 {s s' : St} {t : Tid} {ev : Ev} {G M Q : List Nat} {h' a
   inv_open h
   auto_step
 
-set_option maxHeartbeats 1000000 in
+set_option maxHeartbeats 4000000 in
 theorem sinvl_step_skP2 {s s' : St} {t : Tid} {ev : Ev} {G M Q : List Nat} {h' a it : Nat} {p : MP} {hops : Nat}
     (h : SInvL s G M Q) (hpc : s.pc t = .skP2 h' a it p hops) (hs : step s t = some (s', ev)) :
     ∃ G' M' Q', SInvL s' G' M' Q' ∧ StepEff s t s' Q Q' := by
@@ -286,7 +323,7 @@ theorem sinvl_step_skP2 {s s' : St} {t : Tid} {ev : Ev} {G M Q : List Nat} {h' a
   obtain ⟨p1, p2⟩ := p
   cases p1 <;> cases p2 <;> auto_step
 
-set_option maxHeartbeats 1000000 in
+set_option maxHeartbeats 4000000 in
 theorem sinvl_step_dChk2 {s s' : St} {t : Tid} {ev : Ev} {G M Q : List Nat} {h' a it : Nat} {p : MP} {hops : Nat}
     (h : SInvL s G M Q) (hpc : s.pc t = .dChk2 h' a it p hops) (hs : step s t = some (s', ev)) :
     ∃ G' M' Q', SInvL s' G' M' Q' ∧ StepEff s t s' Q Q' := by
@@ -294,19 +331,483 @@ theorem sinvl_step_dChk2 {s s' : St} {t : Tid} {ev : Ev} {G M Q : List Nat} {h' 
   obtain ⟨p1, p2⟩ := p
   cases p1 <;> cases p2 <;> auto_step
 
-set_option maxHeartbeats 1000000 in
+set_option maxHeartbeats 4000000 in
 theorem sinvl_step_fcP1 {s s' : St} {t : Tid} {ev : Ev} {G M Q : List Nat} {c nw : Nat} {fin : Option Int}
     (h : SInvL s G M Q) (hpc : s.pc t = .fcP1 c nw fin) (hs : step s t = some (s', ev)) :
     ∃ G' M' Q', SInvL s' G' M' Q' ∧ StepEff s t s' Q Q' := by
   inv_open h
   cases fin <;> auto_step
 
-set_option maxHeartbeats 1000000 in
+set_option maxHeartbeats 4000000 in
 theorem sinvl_step_fcP2 {s s' : St} {t : Tid} {ev : Ev} {G M Q : List Nat} {c nw : Nat} {p : MP} {fin : Option Int}
     (h : SInvL s G M Q) (hpc : s.pc t = .fcP2 c nw p fin) (hs : step s t = some (s', ev)) :
     ∃ G' M' Q', SInvL s' G' M' Q' ∧ StepEff s t s' Q Q' := by
   inv_open h
   obtain ⟨p1, p2⟩ := p
   cases fin <;> cases p1 <;> cases p2 <;> auto_step
+
+/-! ### The steps that change the lists -/
+
+/-- A published node whose link is null or not marked is in `Q`. -/
+theorem SInvL.unmarked_in_Q {s : St} {G M Q : List Nat} (h : SInvL s G M Q) {a : Nat}
+    (ha : a ∈ G ++ (M ++ Q)) (hu : s.nptr a = none ∨ s.nbit a = false) : a ∈ Q := by
+  rcases List.mem_append.mp ha with h1 | h1
+  · have := h.bG a h1; rcases hu with hu | hu <;> simp_all
+  · rcases List.mem_append.mp h1 with h2 | h2
+    · have := h.bM a h2; rcases hu with hu | hu <;> simp_all
+    · exact h2
+
+theorem tail_insert {α β : Type} (f : α → β) (a n : α) : ∀ (X Y : List α),
+    ∃ Xq Yq, (X ++ a :: Y).tail.map f = Xq ++ Yq ∧ (X ++ a :: n :: Y).tail.map f = Xq ++ f n :: Yq
+  | [], Y => ⟨[], Y.map f, by simp, by simp⟩
+  | x :: X, Y => ⟨(X ++ [a]).map f, Y.map f, by simp, by simp⟩
+
+/-- Linking the private node `n` right behind the published node `a` whose link is null or not marked (`enqueue`'s
+    first CAS: `a` is the last node; the basket CAS: anywhere in `Q`). -/
+theorem SInvL.link_behind {s : St} {G M Q : List Nat} (h : SInvL s G M Q) {a n : Nat}
+    (ha : a ∈ G ++ (M ++ Q)) (hu : s.nptr a = none ∨ s.nbit a = false) (hn : n ∉ G ++ (M ++ Q))
+    (hnn : s.nptr n = s.nptr a) :
+    ∃ Q', Chain (upd s.nptr a (some n)) (some s.head) (M ++ Q') ∧ (M ++ Q').Nodup ∧
+      (∀ c, c ∈ Q' ↔ (c = n ∨ c ∈ Q)) ∧ Q'.head? = Q.head? ∧ a ∈ Q ∧
+      (∃ Xq Yq, Q.tail.map s.val = Xq ++ Yq ∧ Q'.tail.map s.val = Xq ++ s.val n :: Yq) := by
+  have haQ := h.unmarked_in_Q ha hu
+  obtain ⟨X, Y, hXY⟩ := List.append_of_mem haQ
+  have hnL : n ∉ M ++ Q := fun hm => hn (List.mem_append_right _ hm)
+  have hch := h.chain
+  have hnd := h.nodup
+  rw [hXY, ← List.append_assoc] at hch hnd hnL
+  have hch' := Chain.insertAfter hch hnd hnL hnn
+  refine ⟨X ++ a :: n :: Y, by rw [← List.append_assoc]; exact hch', ?_, ?_, ?_, haQ, ?_⟩
+  · rw [← List.append_assoc]
+    have e : (M ++ X) ++ a :: n :: Y = ((M ++ X) ++ [a]) ++ n :: Y := by simp
+    have e0 : (M ++ X) ++ a :: Y = ((M ++ X) ++ [a]) ++ Y := by simp
+    rw [e]; rw [e0] at hnd hnL
+    rw [List.nodup_append] at hnd ⊢
+    refine ⟨hnd.1, ?_, ?_⟩
+    · rw [List.nodup_cons]; exact ⟨fun hm => hnL (List.mem_append_right _ hm), hnd.2.1⟩
+    · intro x hx y hy
+      rcases List.mem_cons.mp hy with e1 | e1
+      · subst e1; intro e2; subst e2; exact hnL (List.mem_append_left _ hx)
+      · exact hnd.2.2 x hx y e1
+  · intro c; rw [hXY]; simp only [List.mem_append, List.mem_cons]; grind
+  · rw [hXY]; cases X <;> simp
+  · rw [hXY]; exact tail_insert s.val a n X Y
+
+set_option maxHeartbeats 4000000 in
+theorem sinvl_step_enqCas {s s' : St} {t : Tid} {ev : Ev} {G M Q : List Nat} {n a : Nat} {b : Bool}
+    (h : SInvL s G M Q) (hpc : s.pc t = .enqCas n a b) (hs : step s t = some (s', ev)) :
+    ∃ G' M' Q', SInvL s' G' M' Q' ∧ StepEff s t s' Q Q' := by
+  have hlb := fun ha hu hn hnn => h.link_behind (a := a) (n := n) ha hu hn hnn
+  inv_open h
+  have hnW : n ∉ G ++ (M ++ Q) := fun hm => (hpub n hm).2 t (by simp [hpc, enqNode])
+  have hnx : s.nptr n = none ∧ s.nbit n = false := by
+    have := hlk t n (none, false) (by simp [hpc, linkOf]); simpa [St.next, Prod.ext_iff] using this
+  have haW := hinw t a (by simp [hpc, wnodes])
+  have hnc := hpriv t n (by simp [hpc, enqNode])
+  simp only [step, hpc] at hs
+  split at hs
+  next heq =>
+    simp at hs; obtain ⟨rfl, -⟩ := hs
+    have hax : s.nptr a = none ∧ s.nbit a = b := by simpa [St.next, Prod.ext_iff] using heq
+    obtain ⟨Q', hch', hnd', hmemQ, hhead, haQ, Xq, Yq, hq1, hq2⟩ := hlb haW (Or.inl hax.1) hnW (by rw [hnx.1, hax.1])
+    have hnolink : ∀ t2 v, linkOf (s.pc t2) = some (a, v) → False := by
+      intro t2 v hl
+      rcases link_marked hl (hpcf t2) with h1 | h1
+      · exact (hpub a haW).2 t2 h1
+      · have := hlk t2 a v hl
+        simp only [St.next, Prod.ext_iff] at this
+        exact h1.2 (by rw [← this.1, hax.1])
+    have hna : n ≠ a := fun e => hnW (e ▸ haW)
+    have hlp : BEff (Q.tail.map s.val) ⟨"enq", [s.val n]⟩ [1] (Q'.tail.map s.val) :=
+      Or.inl ⟨s.val n, Xq, Yq, rfl, rfl, hq1, hq2⟩
+    have hQ'ne : Q' ≠ [] := by intro e; rw [e] at hmemQ; have := (hmemQ n).mpr (Or.inl rfl); simp at this
+    have hmemW : ∀ c, c ∈ G ++ (M ++ Q') ↔ (c = n ∨ c ∈ G ++ (M ++ Q)) := by
+      intro c; simp only [List.mem_append, hmemQ]; grind
+    have hmemL : ∀ c, c ∈ M ++ Q' ↔ (c = n ∨ c ∈ M ++ Q) := by
+      intro c; simp only [List.mem_append, hmemQ]; grind
+    clear hlb hq1 hq2
+    refine ⟨G, M, Q', ?_, ?_⟩
+    · sinv_close
+    · eff_close
+  next hne =>
+    simp at hs; obtain ⟨rfl, -⟩ := hs
+    refine ⟨G, M, Q, ?_, ?_⟩
+    · sinv_close
+    · eff_close
+
+set_option maxHeartbeats 4000000 in
+theorem sinvl_step_bkCas {s s' : St} {t : Tid} {ev : Ev} {G M Q : List Nat} {n a : Nat} {p : MP}
+    (h : SInvL s G M Q) (hpc : s.pc t = .bkCas n a p) (hs : step s t = some (s', ev)) :
+    ∃ G' M' Q', SInvL s' G' M' Q' ∧ StepEff s t s' Q Q' := by
+  have hlb := fun ha hu hn hnn => h.link_behind (a := a) (n := n) ha hu hn hnn
+  inv_open h
+  have hnW : n ∉ G ++ (M ++ Q) := fun hm => (hpub n hm).2 t (by simp [hpc, enqNode])
+  have hnx : s.nptr n = p.1 ∧ s.nbit n = p.2 := by
+    have := hlk t n p (by simp [hpc, linkOf]); simpa [St.next, Prod.ext_iff] using this
+  have hp2 : p.2 = false := by have := hpcf t; simpa [hpc, pcFact] using this
+  have haW := hinw t a (by simp [hpc, wnodes])
+  have hnc := hpriv t n (by simp [hpc, enqNode])
+  simp only [step, hpc] at hs
+  split at hs
+  next heq =>
+    simp at hs; obtain ⟨rfl, -⟩ := hs
+    have hax : s.nptr a = p.1 ∧ s.nbit a = p.2 := by simpa [St.next, Prod.ext_iff] using heq
+    obtain ⟨Q', hch', hnd', hmemQ, hhead, haQ, Xq, Yq, hq1, hq2⟩ :=
+      hlb haW (Or.inr (by rw [hax.2, hp2])) hnW (by rw [hnx.1, hax.1])
+    have hnolink : ∀ t2 v, linkOf (s.pc t2) = some (a, v) → False := by
+      intro t2 v hl
+      rcases link_marked hl (hpcf t2) with h1 | h1
+      · exact (hpub a haW).2 t2 h1
+      · have := hlk t2 a v hl
+        simp only [St.next, Prod.ext_iff] at this
+        have e := this.2; rw [hax.2, hp2, h1.1] at e; simp at e
+    have hna : n ≠ a := fun e => hnW (e ▸ haW)
+    have hnb : s.nbit n = false := by rw [hnx.2, hp2]
+    have hlp : BEff (Q.tail.map s.val) ⟨"enq", [s.val n]⟩ [1] (Q'.tail.map s.val) :=
+      Or.inl ⟨s.val n, Xq, Yq, rfl, rfl, hq1, hq2⟩
+    have hQ'ne : Q' ≠ [] := by intro e; rw [e] at hmemQ; have := (hmemQ n).mpr (Or.inl rfl); simp at this
+    have hmemW : ∀ c, c ∈ G ++ (M ++ Q') ↔ (c = n ∨ c ∈ G ++ (M ++ Q)) := by
+      intro c; simp only [List.mem_append, hmemQ]; grind
+    have hmemL : ∀ c, c ∈ M ++ Q' ↔ (c = n ∨ c ∈ M ++ Q) := by
+      intro c; simp only [List.mem_append, hmemQ]; grind
+    clear hlb hq1 hq2
+    refine ⟨G, M, Q', ?_, ?_⟩
+    · sinv_close
+    · eff_close
+  next hne =>
+    simp at hs; obtain ⟨rfl, -⟩ := hs
+    refine ⟨G, M, Q, ?_, ?_⟩
+    · sinv_close
+    · eff_close
+
+set_option maxHeartbeats 4000000 in
+theorem sinvl_step_dNx2 {s s' : St} {t : Tid} {ev : Ev} {G M Q : List Nat} {h' a : Nat} {p : MP}
+    (h : SInvL s G M Q) (hpc : s.pc t = .dNx2 h' a p) (hs : step s t = some (s', ev)) :
+    ∃ G' M' Q', SInvL s' G' M' Q' ∧ StepEff s t s' Q Q' := by
+  have hff := h.head_first
+  inv_open h
+  have hhW := hinw t h' (by simp [hpc, wnodes])
+  -- a null link: `h'` is `head` and the only node of `Q`
+  have hemp : s.nptr h' = none → s.head = h' ∧ Q = [h'] := by
+    intro hn
+    have hQ : h' ∈ Q := by
+      rcases (fmW h').mp hhW with h1 | h1 | h1
+      · exact absurd hn (hbG h' h1).2
+      · exact absurd hn (hbM h' h1).2
+      · exact h1
+    have hhd := hdh t h' (by simp [hpc, deqH]) (List.mem_append_right _ hQ)
+    have hM : M = [] := by
+      cases M with
+      | nil => rfl
+      | cons m r =>
+        simp at hff
+        exact absurd (hhd ▸ hQ) (fdMQ s.head (by rw [← hff]; simp))
+    subst hM
+    simp only [List.nil_append] at hch hff
+    cases Q with
+    | nil => simp at hff
+    | cons q r =>
+      simp at hff; subst hff
+      simp only [Chain, true_and] at hch
+      rw [hhd, hn] at hch
+      exact ⟨hhd, by rw [Chain.none_nil hch, hhd]⟩
+  have hlp : Q = [h'] → BEff (Q.tail.map s.val) ⟨"deq", []⟩ [0] (Q.tail.map s.val) := by
+    intro e; rw [e]; exact Or.inr ⟨rfl, fifo_deq_none⟩
+  obtain ⟨p1, p2⟩ := p
+  by_cases hha : h' = a
+  · subst hha
+    cases p1 <;> cases p2 <;> auto_step
+  · cases p1 <;> cases p2 <;> auto_step
+
+set_option maxHeartbeats 4000000 in
+theorem sinvl_step_dMark {s s' : St} {t : Tid} {ev : Ev} {G M Q : List Nat} {h' it : Nat} {p : MP} {hops : Nat}
+    (h : SInvL s G M Q) (hpc : s.pc t = .dMark h' it p hops) (hs : step s t = some (s', ev)) :
+    ∃ G' M' Q', SInvL s' G' M' Q' ∧ StepEff s t s' Q Q' := by
+  have huq := fun ha hu => h.unmarked_in_Q (a := it) ha hu
+  inv_open h
+  have hitW := hinw t it (by simp [hpc, wnodes])
+  have hpf : p.1 = none ∨ p.2 = false := by have := hpcf t; simpa [hpc, pcFact] using this
+  have hlowit := hlow t it (by simp [hpc, lows])
+  simp only [step, hpc] at hs
+  split at hs
+  next heq =>
+    have hax : s.nptr it = p.1 ∧ s.nbit it = p.2 := by simpa [St.next, Prod.ext_iff] using heq
+    have hnolink : ∀ t2 v, linkOf (s.pc t2) = some (it, v) → False := by
+      intro t2 v hl
+      rcases link_marked hl (hpcf t2) with h1 | h1
+      · exact (hpub it hitW).2 t2 h1
+      · have := hlk t2 it v hl
+        simp only [St.next, Prod.ext_iff] at this
+        rcases hpf with e | e
+        · exact h1.2 (by rw [← this.1, hax.1, e])
+        · have e2 := this.2; rw [hax.2, e, h1.1] at e2; simp at e2
+    split at hs
+    next x hx =>
+      simp at hs; obtain ⟨rfl, -⟩ := hs
+      have hp2 : p.2 = false := by rcases hpf with e | e; · rw [hx] at e; simp at e
+                                   · exact e
+      have hitQ : it ∈ Q := huq hitW (Or.inr (by rw [hax.2, hp2]))
+      have hqh : Q.head? = some it := by
+        rcases hlowit with e | e | e
+        · exact absurd hitQ (fdGQ it e)
+        · exact absurd hitQ (fdMQ it e)
+        · exact e
+      -- `Q = it :: x :: r`
+      obtain ⟨r, hQ⟩ : ∃ r, Q = it :: x :: r := by
+        cases Q with
+        | nil => simp at hqh
+        | cons q r0 =>
+          simp at hqh; subst hqh
+          have hc2 := Chain.drop_prefix (A := M) hch
+          simp only [Chain, true_and] at hc2
+          rw [hax.1, hx] at hc2
+          cases r0 with
+          | nil => simp [Chain] at hc2
+          | cons y r => simp only [Chain, Option.some.injEq] at hc2; exact ⟨r, by rw [hc2.1]⟩
+      obtain ⟨M', Q', hML, hmemM, hmemQ, hhead', hQne, hlp⟩ : ∃ M' Q' : List Nat, M' ++ Q' = M ++ Q ∧
+          (∀ c, c ∈ M' ↔ (c ∈ M ∨ c = it)) ∧ (∀ c, c ∈ Q' ↔ (c ∈ Q ∧ c ≠ it)) ∧ Q'.head? = some x ∧ Q' ≠ [] ∧
+          BEff (Q.tail.map s.val) ⟨"deq", []⟩ [1, s.val x] (Q'.tail.map s.val) := by
+        refine ⟨M ++ [it], x :: r, by rw [hQ]; simp, by intro c; simp, ?_, rfl, by simp, ?_⟩
+        · intro c
+          have hndQ : (it :: x :: r).Nodup := hQ ▸ (List.nodup_append.mp hnd).2.1
+          have hni : it ∉ x :: r := (List.nodup_cons.mp hndQ).1
+          rw [hQ]; simp only [List.mem_cons]
+          constructor
+          · intro hc; exact ⟨Or.inr hc, fun e => hni (e ▸ (List.mem_cons.mpr hc))⟩
+          · rintro ⟨h1 | h1, h2⟩
+            · exact absurd h1 h2
+            · exact h1
+        · rw [hQ]; exact Or.inr ⟨rfl, by simp [fifo_deq_some]⟩
+      have hch' : Chain s.nptr (some s.head) (M' ++ Q') := hML ▸ hch
+      have hnd' : (M' ++ Q').Nodup := hML ▸ hnd
+      have hLm : ∀ c, c ∈ M' ++ Q' ↔ c ∈ M ++ Q := fun c => by rw [hML]
+      have hWm : ∀ c, c ∈ G ++ (M' ++ Q') ↔ c ∈ G ++ (M ++ Q) := fun c => by rw [hML]
+      have hxQ : x ∈ Q := by rw [hQ]; simp
+      have hxW : x ∈ G ++ (M ++ Q) := (fmW x).mpr (Or.inr (Or.inr hxQ))
+      have hxit : x ≠ it := by
+        intro e
+        have hndQ : (it :: x :: r).Nodup := hQ ▸ (List.nodup_append.mp hnd).2.1
+        exact (List.nodup_cons.mp hndQ).1 (by simp [e])
+      clear huq hQ r
+      refine ⟨G, M', Q', ?_, ?_⟩
+      · constructor <;> intros <;> (try dsimp only at *) <;> (try simp only [hML] at *) <;>
+          grind [upd, Pub, pub_mk, enqNode, wnodes, lows, deqH, midOf, linkOf, pcFact, Low, Mid, St.next, fcEnd]
+      · eff_close
+    next hx =>
+      simp at hs; obtain ⟨rfl, -⟩ := hs
+      refine ⟨G, M, Q, ?_, ?_⟩
+      · sinv_close
+      · eff_close
+  next hne =>
+    simp at hs; obtain ⟨rfl, -⟩ := hs
+    refine ⟨G, M, Q, ?_, ?_⟩
+    · sinv_close
+    · eff_close
+
+theorem mid_deqH {pc : PC} {h x : Nat} (hm : midOf pc = some (h, x)) : deqH pc = some h := by
+  cases pc <;> simp_all [midOf, deqH]
+
+/-- Moving `head` forward to a marked node of the chain or to the current dummy: the nodes passed become "gone". -/
+theorem SInvL.head_move {s : St} {G M Q : List Nat} (h : SInvL s G M Q) {nw : Nat} (hm : Mid M Q nw) :
+    ∃ G' M' : List Nat, Chain s.nptr (some nw) (M' ++ Q) ∧ (M' ++ Q).Nodup ∧
+      (∀ c, c ∈ G' ↔ (c ∈ G ∨ (c ∈ M ∧ c ∉ M'))) ∧ (∀ c, c ∈ M' → c ∈ M) ∧
+      (s.head = nw → ∀ c, c ∈ M → c ∈ M') ∧ (s.head ≠ nw → s.head ∈ G') := by
+  have hff := h.head_first
+  have hndM : M.Nodup := (List.nodup_append.mp h.nodup).1
+  by_cases hnM : nw ∈ M
+  · obtain ⟨M1, M2, hM⟩ := List.append_of_mem hnM
+    have hch := h.chain
+    have hnd := h.nodup
+    rw [hM, List.append_assoc] at hch hnd
+    have hch2 : Chain s.nptr (some nw) ((nw :: M2) ++ Q) := Chain.drop_prefix hch
+    have hnd2 : ((nw :: M2) ++ Q).Nodup := (List.nodup_append.mp hnd).2.1
+    rw [hM] at hndM
+    have hdis := (List.nodup_append.mp hndM).2.2
+    refine ⟨G ++ M1, nw :: M2, hch2, hnd2, ?_, ?_, ?_, ?_⟩
+    · intro c
+      simp only [List.mem_append, hM, List.mem_cons]
+      constructor
+      · rintro (h1 | h1)
+        · exact Or.inl h1
+        · exact Or.inr ⟨Or.inl h1, fun e => by
+            rcases e with e | e
+            · exact hdis c h1 nw (by simp) e
+            · exact hdis c h1 c (by simp [e]) rfl⟩
+      · rintro (h1 | ⟨h1 | h1, h2⟩)
+        · exact Or.inl h1
+        · exact Or.inr h1
+        · exact absurd h1 h2
+    · intro c hc; rw [hM]; exact List.mem_append_right _ hc
+    · intro e c hc
+      cases M1 with
+      | nil => simpa [hM] using hc
+      | cons m r =>
+        rw [hM] at hff; simp at hff
+        exact absurd (hdis m (by simp) nw (by simp)) (by rw [hff, e]; simp)
+    · intro e
+      cases M1 with
+      | nil => rw [hM] at hff; simp at hff; exact absurd hff.symm e
+      | cons m r => rw [hM] at hff; simp at hff; rw [← hff]; simp
+  · have hq : Q.head? = some nw := by
+      rcases hm with e | e
+      · exact absurd e hnM
+      · exact e
+    have hch2 : Chain s.nptr (some nw) ([] ++ Q) := by
+      cases Q with
+      | nil => simp at hq
+      | cons q r => simp at hq; subst hq; simpa using Chain.drop_prefix (A := M) h.chain
+    refine ⟨G ++ M, [], hch2, by simpa using (List.nodup_append.mp h.nodup).2.1, by intro c; simp, by simp, ?_, ?_⟩
+    · intro e c hc
+      cases M with
+      | nil => simp at hc
+      | cons m r => simp at hff; exact absurd (by rw [← e, ← hff]; simp) hnM
+    · intro e
+      cases M with
+      | nil => simp at hff; rw [hq] at hff; simp at hff; exact absurd hff.symm e
+      | cons m r => simp at hff; rw [← hff]; simp
+
+set_option maxHeartbeats 4000000 in
+theorem sinvl_step_fcCas {s s' : St} {t : Tid} {ev : Ev} {G M Q : List Nat} {h' nw : Nat} {fin : Option Int}
+    (h : SInvL s G M Q) (hpc : s.pc t = .fcCas h' nw fin) (hs : step s t = some (s', ev)) :
+    ∃ G' M' Q', SInvL s' G' M' Q' ∧ StepEff s t s' Q Q' := by
+  have hmv := fun hm => h.head_move (nw := nw) hm
+  inv_open h
+  have hmd : ∀ t2 h2 x, midOf (s.pc t2) = some (h2, x) → deqH (s.pc t2) = some h2 := fun t2 h2 x hm => mid_deqH hm
+  simp only [step, hpc] at hs
+  split at hs
+  next heq =>
+    simp at hs; obtain ⟨rfl, -⟩ := hs
+    obtain ⟨G', M', hch', hnd', hmG, hM1, hsame, hmove⟩ := hmv (hmid t h' nw (by simp [hpc, midOf]) heq)
+    have hWm : ∀ c, c ∈ G' ++ (M' ++ Q) ↔ c ∈ G ++ (M ++ Q) := by
+      intro c; simp only [List.mem_append, hmG]
+      constructor
+      · rintro ((h1 | h1) | h1 | h1)
+        · exact Or.inl h1
+        · exact Or.inr (Or.inl h1.1)
+        · exact Or.inr (Or.inl (hM1 c h1))
+        · exact Or.inr (Or.inr h1)
+      · rintro (h1 | h1 | h1)
+        · exact Or.inl (Or.inl h1)
+        · by_cases e : c ∈ M'
+          · exact Or.inr (Or.inl e)
+          · exact Or.inl (Or.inr ⟨h1, e⟩)
+        · exact Or.inr (Or.inr h1)
+    have hLm : ∀ c, c ∈ M' ++ Q ↔ (c ∈ M' ∨ c ∈ Q) := fun c => List.mem_append
+    have hLo : ∀ c, c ∈ M ++ Q ↔ (c ∈ M ∨ c ∈ Q) := fun c => List.mem_append
+    have hnwL : nw ∈ M ∨ nw ∈ Q := by
+      rcases hmid t h' nw (by simp [hpc, midOf]) heq with e | e
+      · exact Or.inl e
+      · exact Or.inr (fqh nw e)
+    clear hmv
+    refine ⟨G', M', Q, ?_, ?_⟩
+    · cases fin <;>
+        (constructor <;> intros <;> (try dsimp only at *) <;> (try simp only [hWm] at *) <;>
+          grind [upd, Pub, pub_mk, enqNode, wnodes, lows, deqH, midOf, linkOf, pcFact, Low, Mid, St.next, fcEnd])
+    · cases fin <;> eff_close
+  next hne =>
+    simp at hs; obtain ⟨rfl, -⟩ := hs
+    refine ⟨G, M, Q, ?_, ?_⟩
+    · cases fin <;> sinv_close
+    · cases fin <;> eff_close
+
+theorem sinvl_step {s s' : St} {t : Tid} {ev : Ev} {G M Q : List Nat}
+    (h : SInvL s G M Q) (hs : step s t = some (s', ev)) : ∃ G' M' Q', SInvL s' G' M' Q' ∧ StepEff s t s' Q Q' := by
+  cases hpc : s.pc t with
+  | idle => simp [step, hpc] at hs
+  | done r => simp [step, hpc] at hs
+  | crash n fin => simp [step, hpc] at hs
+  | enqLd1 n => exact sinvl_step_enqLd1 h hpc hs
+  | enqLd2 n p => exact sinvl_step_enqLd2 h hpc hs
+  | enqNext n a => exact sinvl_step_enqNext h hpc hs
+  | enqInit n a b => exact sinvl_step_enqInit h hpc hs
+  | enqCas n a b => exact sinvl_step_enqCas h hpc hs
+  | enqSwing n a => exact sinvl_step_enqSwing h hpc hs
+  | bkLd1 n a => exact sinvl_step_bkLd1 h hpc hs
+  | bkLd2 n a p => exact sinvl_step_bkLd2 h hpc hs
+  | bkTail n a p => exact sinvl_step_bkTail h hpc hs
+  | bkChk n a p => exact sinvl_step_bkChk h hpc hs
+  | bkSet n a p => exact sinvl_step_bkSet h hpc hs
+  | bkCas n a p => exact sinvl_step_bkCas h hpc hs
+  | fxTail n a p => exact sinvl_step_fxTail h hpc hs
+  | fxChk n a p => exact sinvl_step_fxChk h hpc hs
+  | fxWalk n a c => exact sinvl_step_fxWalk h hpc hs
+  | fxWTail n a c p => exact sinvl_step_fxWTail h hpc hs
+  | fxWChk n a c p => exact sinvl_step_fxWChk h hpc hs
+  | fxCas n a c => exact sinvl_step_fxCas h hpc hs
+  | dLdH1 => exact sinvl_step_dLdH1 h hpc hs
+  | dLdH2 p => exact sinvl_step_dLdH2 h hpc hs
+  | dLdT1 h' => exact sinvl_step_dLdT1 h hpc hs
+  | dLdT2 h' p => exact sinvl_step_dLdT2 h hpc hs
+  | dNx1 h' a => exact sinvl_step_dNx1 h hpc hs
+  | dNx2 h' a p => exact sinvl_step_dNx2 h hpc hs
+  | dChk h' a p => exact sinvl_step_dChk h hpc hs
+  | hpWalk h' a c => exact sinvl_step_hpWalk h hpc hs
+  | hpTail h' a c => exact sinvl_step_hpTail h hpc hs
+  | hpP1 h' a c => exact sinvl_step_hpP1 h hpc hs
+  | hpP2 h' a c p => exact sinvl_step_hpP2 h hpc hs
+  | hpCas h' a c => exact sinvl_step_hpCas h hpc hs
+  | skHead h' a it p hops => exact sinvl_step_skHead h hpc hs
+  | skP1 h' a it hops => exact sinvl_step_skP1 h hpc hs
+  | skP2 h' a it p hops => exact sinvl_step_skP2 h hpc hs
+  | dChk2 h' a it p hops => exact sinvl_step_dChk2 h hpc hs
+  | dMark h' it p hops => exact sinvl_step_dMark h hpc hs
+  | fcCas h' nw fin => exact sinvl_step_fcCas h hpc hs
+  | fcP1 c nw fin => exact sinvl_step_fcP1 h hpc hs
+  | fcP2 c nw p fin => exact sinvl_step_fcP2 h hpc hs
+
+/-! ### Preservation: invocation and return -/
+
+structure InvokeEff (s : St) (t : Tid) (op : GOp) (s' : St) (Q : List Nat) : Prop where
+  frame : ∀ t2, t2 ≠ t → s'.pc t2 = s.pc t2
+  ops : ∀ t2, t2 ≠ t → opOf s'.val (s.pc t2) = opOf s.val (s.pc t2)
+  was : s.pc t = .idle
+  now : opOf s'.val (s'.pc t) = some op ∧ lpRet (s'.pc t) = none
+  abs : Q.tail.map s'.val = Q.tail.map s.val
+
+theorem sinvl_invoke {s s' : St} {t : Tid} {op : GOp} {G M Q : List Nat}
+    (h : SInvL s G M Q) (hs : invoke s t op = some s') : SInvL s' G M Q ∧ InvokeEff s t op s' Q := by
+  inv_open h
+  obtain ⟨name, args⟩ := op
+  unfold invoke at hs
+  split at hs
+  next v hpc hname hargs =>
+    simp at hs; subst hs
+    dsimp only at hname hargs; subst hname hargs
+    have hfr' : ∀ t2 n, enqNode (s.pc t2) = some n → n ≠ s.cnt := fun t2 n h => Nat.ne_of_lt (hpriv t2 n h)
+    have hcW : s.cnt ∉ G ++ (M ++ Q) := fun hm => Nat.lt_irrefl _ (hpub _ hm).1
+    refine ⟨?_, ?_⟩
+    · sinv_close
+    · constructor <;> intros <;> (try dsimp only at *)
+      · grind [upd]
+      · rename_i t2 ht2
+        unfold opOf
+        cases hq : enqNode (s.pc t2) with
+        | none => rfl
+        | some n => simp [upd, hfr' t2 n hq]
+      · exact hpc
+      · simp [upd, opOf, lpRet, enqNode]
+      · apply List.map_congr_left
+        intro a ha
+        have := (hpub a ((fmW a).mpr (Or.inr (Or.inr (List.mem_of_mem_tail ha))))).1
+        simp [upd]; omega
+  next hpc hname hargs =>
+    simp at hs; subst hs
+    dsimp only at hname hargs; subst hname hargs
+    refine ⟨?_, ?_⟩
+    · sinv_close
+    · constructor <;> intros <;> (try dsimp only at *) <;> grind [upd, opOf, lpRet, enqNode]
+  next => simp at hs
+
+theorem sinvl_result {s s' : St} {t : Tid} {r : GRet} {G M Q : List Nat}
+    (h : SInvL s G M Q) (hs : result s t = some (s', r)) :
+    SInvL s' G M Q ∧ s.pc t = .done r ∧ s'.pc t = .idle ∧ (∀ t2, t2 ≠ t → s'.pc t2 = s.pc t2) ∧ s'.val = s.val := by
+  inv_open h
+  unfold result at hs
+  split at hs
+  next r' hpc =>
+    simp at hs; obtain ⟨rfl, rfl⟩ := hs
+    refine ⟨?_, hpc, by simp [upd], fun t2 h2 => by simp [upd, h2], rfl⟩
+    sinv_close
+  next => simp at hs
 
 end CdsVerif.Algo.Basket
